@@ -22,6 +22,15 @@ theorem C14_last_wins_step (P : Params) (e e' : ENode) (nd : Node) (h : modify P
   obtain ⟨v, h1, h2, _⟩ := modify_ok h
   exact ⟨v, h1, h2⟩
 
+/-- in particular the data type with its width and signedness (`info`: precision, unsigned) is a
+    static attribute of the node record: no modification, typed or untyped, changes it -/
+theorem C14_type_width_sign_kept (P : Params) (e e' : ENode) (nd : Node) (h : C13.modify P e nd = .ok e') :
+    e'.ty = e.ty ∧ e'.info.precision = e.info.precision ∧ e'.info.unsigned = e.info.unsigned ∧
+    e'.units = e.units ∧ e'.dims = e.dims := by
+  obtain ⟨v, _, he⟩ := C14_last_wins_step P e e' nd h
+  rw [he]
+  exact ⟨rfl, rfl, rfl, rfl, rfl⟩
+
 /-- … and for a line that carries a value the result does not depend on the node's current
     value at all (`w` arbitrary, including "no value object yet"). -/
 theorem C14_old_value_irrelevant (P : Params) (e : ENode) (w : Option Val) (nd : Node) (r : Raw)
